@@ -233,6 +233,8 @@ def _sig_tag_block_heuristics(case: dict, f: Failure) -> bool:
     o = dict(case["opts"])
     once = opts.fmt(case["text"], o)
     twice = opts.fmt(once, o)
+    if c01.tag_and_block_like_paragraph(case["text"]) or c01.tag_and_block_like_paragraph(once):
+        return True  # the family as C01 defines it (block_like_line_next_to_tag_line)
     if not c01._TAG_EDGE.search(once):
         return False
 
